@@ -40,7 +40,9 @@ theorem tbUnescape_mem (x : Bytes) : ∀ c ∈ tbUnescape x, c ∈ x := by
     intro c hc
     have hp : ¬ [0x5C, 0x22, 0x22, 0x22] <+: a :: r := by
       rintro ⟨t, ht⟩
-      exact hne t (by simpa using ht.symm)
+      have := ht.symm
+      simp only [List.cons_append, List.nil_append, List.cons.injEq] at this
+      exact hne t this.1 this.2
     rw [tbUnescape_cons a r hp] at hc
     simp only [List.mem_cons] at hc ⊢
     rcases hc with h | h
@@ -58,6 +60,20 @@ theorem tbUnescape_ne_nil (x : Bytes) (h : x ≠ []) : tbUnescape x ≠ [] := by
       simp [tbUnescape_esc]
     · rw [tbUnescape_cons a r hp]; simp
 
+theorem dropWhile_nil_all {α : Type} (p : α → Bool) (l : List α) (h : l.dropWhile p = []) :
+    ∀ x ∈ l, p x = true := by
+  induction l with
+  | nil => simp
+  | cons a r ih =>
+    rw [List.dropWhile_cons] at h
+    split at h
+    · rename_i hp
+      intro x hx
+      rcases List.mem_cons.mp hx with rfl | hx
+      · exact hp
+      · exact ih h x hx
+    · cases h
+
 theorem trimRight_ne_nil (b : Bytes) (hb : b ≠ []) (hh : ∀ c, b.head? = some c → isBlank c = false) :
     trimRight b ≠ [] := by
   intro h
@@ -66,8 +82,8 @@ theorem trimRight_ne_nil (b : Bytes) (hb : b ≠ []) (hh : ∀ c, b.head? = some
   | cons a r =>
     have ha := hh a rfl
     unfold trimRight at h
-    rw [List.reverse_eq_nil_iff, List.dropWhile_eq_nil_iff] at h
-    have := h a (by simp)
+    rw [List.reverse_eq_nil_iff] at h
+    have := dropWhile_nil_all _ _ h a (by simp)
     rw [ha] at this
     exact Bool.noConfusion this
 
